@@ -39,12 +39,24 @@ def compare(src: str, out: str, r: Result, what=("stack",), rgba_tol=1.5 / 255, 
                     r.info = None
         except Exception:
             pass
+    # isolation: the engine is only ever handed one shape (and its clips) at a time, so a mismatch that is gone as soon as
+    # each rendered leaf is converted in a document of its own is caused by the other shapes' presence (state carried
+    # from shape to shape, memoisation with an incomplete key, id bookkeeping) - never by the engine.  Such a
+    # mismatch is kept, whatever the jitter twins below would say (jitter breaks textual coincidences between shapes).
+    interference = False
+    if attribute and r.violations and all(c in ("stack-differs", "colour-differs") for c, _ in r.violations):
+        try:
+            interference = _only_with_company(src, convert_fn or convert, what, rgba_tol, strokes, gradients, min_trusted)
+        except Exception:
+            interference = False
+        if interference:
+            r.violations = [(c, m + "  [each shape converts correctly in a document of its own: the mismatch needs the other shapes' presence, so it is not an engine failure]") for c, m in r.violations]
     # second stage: instability under tiny coordinate jitter (see vlib/refsvg/jitter.py).  Engine failures also
     # occur on purely polygonal input (overlapping dash outlines, degenerate cubics flattened to repeated points);
     # they depend on the exact coordinates, whereas errors of picosvg's own logic (transform order, rules, clip
     # and cascade handling, stacking, opacity) are indifferent to moving every coordinate by <= 0.2 % of the viewBox.
     # What this can hide: an error that needs an exact coordinate coincidence (path-level ones are covered by C09).
-    if attribute and r.violations and all(c in ("stack-differs", "colour-differs") for c, _ in r.violations):
+    if attribute and not interference and r.violations and all(c in ("stack-differs", "colour-differs") for c, _ in r.violations):
         try:
             from vlib.refsvg import jitter
 
@@ -62,6 +74,68 @@ def compare(src: str, out: str, r: Result, what=("stack",), rgba_tol=1.5 / 255, 
         except Exception:
             pass
     return stats
+
+
+_LEAF_TAGS = ("rect", "circle", "ellipse", "line", "polyline", "polygon", "path", "use")
+
+
+def _only_with_company(src, convert_fn, what, rgba_tol, strokes, gradients, min_trusted) -> bool:
+    """True iff the document has >= 2 rendered leaves and every single-leaf sub-document (all other rendered leaves
+    removed; defs, clip paths, ancestors and root kept) converts without mismatch.  False when that cannot be judged
+    (a rendered leaf is itself referenced, a sub-document is rejected or fails)."""
+    import copy
+    import re
+    import xml.etree.ElementTree as ET
+
+    NS = render.SVG
+    ET.register_namespace("", "http://www.w3.org/2000/svg")
+    ET.register_namespace("xlink", "http://www.w3.org/1999/xlink")
+    root = ET.fromstring(src.encode())
+    refs = set(re.findall(r"#([^\s\")']+)", src))
+
+    def rendered(el, acc, path):
+        for i, ch in enumerate(el):
+            if not isinstance(ch.tag, str) or not ch.tag.startswith(NS):
+                continue
+            t = ch.tag[len(NS):]
+            if t in ("defs", "clipPath", "linearGradient", "radialGradient", "symbol", "mask", "pattern", "marker"):
+                continue
+            if t in _LEAF_TAGS:
+                acc.append(path + (i,))
+            else:
+                rendered(ch, acc, path + (i,))
+
+    leaves = []
+    rendered(root, leaves, ())
+    if len(leaves) < 2 or len(leaves) > 12:
+        return False
+
+    def at(r0, path):
+        el = r0
+        for i in path:
+            el = list(el)[i]
+        return el
+
+    for p in leaves:
+        el = at(root, p)
+        ids = {e.get("id") for e in el.iter() if e.get("id")}
+        if ids & refs:
+            return False  # instanced elsewhere: removing it would change other leaves
+    for keep in leaves:
+        r0 = copy.deepcopy(root)
+        doomed = [(at(r0, p[:-1]), at(r0, p)) for p in leaves if p != keep]
+        for parent, el in doomed:
+            parent.remove(el)
+        sub = ET.tostring(r0, encoding="unicode")
+        r2 = Result()
+        try:
+            out2 = convert_fn(sub)
+        except Exception:
+            return False
+        st2 = _compare(sub, out2, r2, what, rgba_tol, strokes, gradients, 1, "")
+        if st2 is None or r2.violations or r2.rejected:
+            return False
+    return True
 
 
 def _compare(src, out, r, what, rgba_tol, strokes, gradients, min_trusted, label):
